@@ -18,9 +18,12 @@ out['suite_passes_with_change'] = r.returncode == 0
 out['suite_tail'] = r.stdout.strip().splitlines()[-2:]
 demo = os.path.join(wt, 'seed_out', 'demo.py')
 r1 = sh(f"/venv/bin/python {demo}", env=env, cwd=wt)
-sh(f"git -C {wt} stash")
+# never `git stash` here: the stash is shared by all worktrees
+pf = os.path.join(wt, 'seed_out', '_eval_patch.diff')
+open(pf, 'w').write(sh(f"git -C {wt} diff -- src").stdout)
+assert sh(f"git -C {wt} apply -R {pf}").returncode == 0
 r0 = sh(f"/venv/bin/python {demo}", env=env, cwd=wt)
-sh(f"git -C {wt} stash pop")
+assert sh(f"git -C {wt} apply {pf}").returncode == 0
 out['demo_fails_with_change'] = r1.returncode != 0
 out['demo_passes_without_change'] = r0.returncode == 0
 det = {}
